@@ -2,6 +2,7 @@ package main
 
 import (
 	"fmt"
+	"github.com/ldclabs/cose/key"
 	"strings"
 
 	"github.com/ldclabs/cose/cose"
@@ -15,8 +16,9 @@ func init() { streams["objhist"] = streamObjHist }
 // the call and the exported fields (Protected, Unprotected, Payload) are recorded; the model replays the history.
 type histObj interface {
 	Decode([]byte) error
-	Produce(f fkey, ext []byte) error
-	Consume(f fkey, ext []byte) error
+	Produce(fs []fkey, ext []byte) error
+	Consume(fs []fkey, ext []byte) error
+	Sigs() ([]*cose.Signature, bool)
 	Marshal() ([]byte, error)
 	Prot() *cose.Headers
 	Unprot() *cose.Headers
@@ -27,63 +29,93 @@ type histObj interface {
 
 type hSign1 struct{ m cose.Sign1Message[[]byte] }
 
-func (h *hSign1) Decode(d []byte) error          { return h.m.UnmarshalCBOR(d) }
-func (h *hSign1) Produce(f fkey, e []byte) error { return h.m.WithSign(f, e) }
-func (h *hSign1) Consume(f fkey, e []byte) error { return h.m.Verify(f, e) }
-func (h *hSign1) Marshal() ([]byte, error)       { return h.m.MarshalCBOR() }
-func (h *hSign1) Prot() *cose.Headers            { return &h.m.Protected }
-func (h *hSign1) Unprot() *cose.Headers          { return &h.m.Unprotected }
-func (h *hSign1) Recips() []*cose.Recipient      { return nil }
-func (h *hSign1) AddRecip(*cose.Recipient) error { return nil }
-func (h *hSign1) Payload() *[]byte               { return &h.m.Payload }
+func (h *hSign1) Decode(d []byte) error             { return h.m.UnmarshalCBOR(d) }
+func (h *hSign1) Produce(fs []fkey, e []byte) error { return h.m.WithSign(fs[0], e) }
+func (h *hSign1) Sigs() ([]*cose.Signature, bool)   { return nil, false }
+func (h *hSign1) Consume(fs []fkey, e []byte) error { return h.m.Verify(fs[0], e) }
+func (h *hSign1) Marshal() ([]byte, error)          { return h.m.MarshalCBOR() }
+func (h *hSign1) Prot() *cose.Headers               { return &h.m.Protected }
+func (h *hSign1) Unprot() *cose.Headers             { return &h.m.Unprotected }
+func (h *hSign1) Recips() []*cose.Recipient         { return nil }
+func (h *hSign1) AddRecip(*cose.Recipient) error    { return nil }
+func (h *hSign1) Payload() *[]byte                  { return &h.m.Payload }
 
 type hMac0 struct{ m cose.Mac0Message[[]byte] }
 
-func (h *hMac0) Decode(d []byte) error          { return h.m.UnmarshalCBOR(d) }
-func (h *hMac0) Produce(f fkey, e []byte) error { return h.m.Compute(f, e) }
-func (h *hMac0) Consume(f fkey, e []byte) error { return h.m.Verify(f, e) }
-func (h *hMac0) Marshal() ([]byte, error)       { return h.m.MarshalCBOR() }
-func (h *hMac0) Prot() *cose.Headers            { return &h.m.Protected }
-func (h *hMac0) Unprot() *cose.Headers          { return &h.m.Unprotected }
-func (h *hMac0) Recips() []*cose.Recipient      { return nil }
-func (h *hMac0) AddRecip(*cose.Recipient) error { return nil }
-func (h *hMac0) Payload() *[]byte               { return &h.m.Payload }
+func (h *hMac0) Decode(d []byte) error             { return h.m.UnmarshalCBOR(d) }
+func (h *hMac0) Produce(fs []fkey, e []byte) error { return h.m.Compute(fs[0], e) }
+func (h *hMac0) Sigs() ([]*cose.Signature, bool)   { return nil, false }
+func (h *hMac0) Consume(fs []fkey, e []byte) error { return h.m.Verify(fs[0], e) }
+func (h *hMac0) Marshal() ([]byte, error)          { return h.m.MarshalCBOR() }
+func (h *hMac0) Prot() *cose.Headers               { return &h.m.Protected }
+func (h *hMac0) Unprot() *cose.Headers             { return &h.m.Unprotected }
+func (h *hMac0) Recips() []*cose.Recipient         { return nil }
+func (h *hMac0) AddRecip(*cose.Recipient) error    { return nil }
+func (h *hMac0) Payload() *[]byte                  { return &h.m.Payload }
 
 type hEnc0 struct{ m cose.Encrypt0Message[[]byte] }
 
-func (h *hEnc0) Decode(d []byte) error          { return h.m.UnmarshalCBOR(d) }
-func (h *hEnc0) Produce(f fkey, e []byte) error { return h.m.Encrypt(f, e) }
-func (h *hEnc0) Consume(f fkey, e []byte) error { return h.m.Decrypt(f, e) }
-func (h *hEnc0) Marshal() ([]byte, error)       { return h.m.MarshalCBOR() }
-func (h *hEnc0) Prot() *cose.Headers            { return &h.m.Protected }
-func (h *hEnc0) Unprot() *cose.Headers          { return &h.m.Unprotected }
-func (h *hEnc0) Recips() []*cose.Recipient      { return nil }
-func (h *hEnc0) AddRecip(*cose.Recipient) error { return nil }
-func (h *hEnc0) Payload() *[]byte               { return &h.m.Payload }
+func (h *hEnc0) Decode(d []byte) error             { return h.m.UnmarshalCBOR(d) }
+func (h *hEnc0) Produce(fs []fkey, e []byte) error { return h.m.Encrypt(fs[0], e) }
+func (h *hEnc0) Sigs() ([]*cose.Signature, bool)   { return nil, false }
+func (h *hEnc0) Consume(fs []fkey, e []byte) error { return h.m.Decrypt(fs[0], e) }
+func (h *hEnc0) Marshal() ([]byte, error)          { return h.m.MarshalCBOR() }
+func (h *hEnc0) Prot() *cose.Headers               { return &h.m.Protected }
+func (h *hEnc0) Unprot() *cose.Headers             { return &h.m.Unprotected }
+func (h *hEnc0) Recips() []*cose.Recipient         { return nil }
+func (h *hEnc0) AddRecip(*cose.Recipient) error    { return nil }
+func (h *hEnc0) Payload() *[]byte                  { return &h.m.Payload }
 
 type hMac struct{ m cose.MacMessage[[]byte] }
 
-func (h *hMac) Decode(d []byte) error            { return h.m.UnmarshalCBOR(d) }
-func (h *hMac) Produce(f fkey, e []byte) error   { return h.m.Compute(f, e) }
-func (h *hMac) Consume(f fkey, e []byte) error   { return h.m.Verify(f, e) }
-func (h *hMac) Marshal() ([]byte, error)         { return h.m.MarshalCBOR() }
-func (h *hMac) Prot() *cose.Headers              { return &h.m.Protected }
-func (h *hMac) Unprot() *cose.Headers            { return &h.m.Unprotected }
-func (h *hMac) Payload() *[]byte                 { return &h.m.Payload }
-func (h *hMac) Recips() []*cose.Recipient        { return h.m.Recipients() }
-func (h *hMac) AddRecip(r *cose.Recipient) error { return h.m.AddRecipient(r) }
+func (h *hMac) Decode(d []byte) error             { return h.m.UnmarshalCBOR(d) }
+func (h *hMac) Produce(fs []fkey, e []byte) error { return h.m.Compute(fs[0], e) }
+func (h *hMac) Sigs() ([]*cose.Signature, bool)   { return nil, false }
+func (h *hMac) Consume(fs []fkey, e []byte) error { return h.m.Verify(fs[0], e) }
+func (h *hMac) Marshal() ([]byte, error)          { return h.m.MarshalCBOR() }
+func (h *hMac) Prot() *cose.Headers               { return &h.m.Protected }
+func (h *hMac) Unprot() *cose.Headers             { return &h.m.Unprotected }
+func (h *hMac) Payload() *[]byte                  { return &h.m.Payload }
+func (h *hMac) Recips() []*cose.Recipient         { return h.m.Recipients() }
+func (h *hMac) AddRecip(r *cose.Recipient) error  { return h.m.AddRecipient(r) }
 
 type hEnc struct{ m cose.EncryptMessage[[]byte] }
 
-func (h *hEnc) Decode(d []byte) error            { return h.m.UnmarshalCBOR(d) }
-func (h *hEnc) Produce(f fkey, e []byte) error   { return h.m.Encrypt(f, e) }
-func (h *hEnc) Consume(f fkey, e []byte) error   { return h.m.Decrypt(f, e) }
-func (h *hEnc) Marshal() ([]byte, error)         { return h.m.MarshalCBOR() }
-func (h *hEnc) Prot() *cose.Headers              { return &h.m.Protected }
-func (h *hEnc) Unprot() *cose.Headers            { return &h.m.Unprotected }
-func (h *hEnc) Payload() *[]byte                 { return &h.m.Payload }
-func (h *hEnc) Recips() []*cose.Recipient        { return h.m.Recipients() }
-func (h *hEnc) AddRecip(r *cose.Recipient) error { return h.m.AddRecipient(r) }
+func (h *hEnc) Decode(d []byte) error             { return h.m.UnmarshalCBOR(d) }
+func (h *hEnc) Produce(fs []fkey, e []byte) error { return h.m.Encrypt(fs[0], e) }
+func (h *hEnc) Sigs() ([]*cose.Signature, bool)   { return nil, false }
+func (h *hEnc) Consume(fs []fkey, e []byte) error { return h.m.Decrypt(fs[0], e) }
+func (h *hEnc) Marshal() ([]byte, error)          { return h.m.MarshalCBOR() }
+func (h *hEnc) Prot() *cose.Headers               { return &h.m.Protected }
+func (h *hEnc) Unprot() *cose.Headers             { return &h.m.Unprotected }
+func (h *hEnc) Payload() *[]byte                  { return &h.m.Payload }
+func (h *hEnc) Recips() []*cose.Recipient         { return h.m.Recipients() }
+func (h *hEnc) AddRecip(r *cose.Recipient) error  { return h.m.AddRecipient(r) }
+
+type hSign struct{ m cose.SignMessage[[]byte] }
+
+func (h *hSign) Decode(d []byte) error { return h.m.UnmarshalCBOR(d) }
+func (h *hSign) Produce(fs []fkey, e []byte) error {
+	ss := key.Signers{}
+	for _, f := range fs {
+		ss = append(ss, f)
+	}
+	return h.m.WithSign(ss, e)
+}
+func (h *hSign) Consume(fs []fkey, e []byte) error {
+	vs := key.Verifiers{}
+	for _, f := range fs {
+		vs = append(vs, f)
+	}
+	return h.m.Verify(vs, e)
+}
+func (h *hSign) Marshal() ([]byte, error)        { return h.m.MarshalCBOR() }
+func (h *hSign) Prot() *cose.Headers             { return &h.m.Protected }
+func (h *hSign) Unprot() *cose.Headers           { return &h.m.Unprotected }
+func (h *hSign) Payload() *[]byte                { return &h.m.Payload }
+func (h *hSign) Recips() []*cose.Recipient       { return nil }
+func (h *hSign) AddRecip(*cose.Recipient) error  { return nil }
+func (h *hSign) Sigs() ([]*cose.Signature, bool) { l := h.m.Signatures(); return l, l != nil }
 
 func newHistObj(kind string) histObj {
 	switch kind {
@@ -95,12 +127,26 @@ func newHistObj(kind string) histObj {
 		return &hMac{}
 	case "KEnc":
 		return &hEnc{}
+	case "KSign":
+		return &hSign{}
 	}
 	return &hEnc0{}
 }
 
 func qSnap(h histObj) string {
-	return fmt.Sprintf("(%s, %s, %s, %s)", qOptMap(*h.Prot()), qOptMap(*h.Unprot()), qOptB(*h.Payload()), qRecipsSeen(h.Recips()))
+	sg := "None"
+	if l, ok := h.Sigs(); ok {
+		var sl []string
+		for _, s := range l {
+			b := "None"
+			if s.Signature != nil {
+				b = "(Some " + qHex(s.Signature) + ")"
+			}
+			sl = append(sl, fmt.Sprintf("(%s, %s, %s)", qMap(s.Protected), qOptMap(s.Unprotected), b))
+		}
+		sg = "(Some " + qList(sl) + ")"
+	}
+	return fmt.Sprintf("(%s, %s, %s, %s, %s)", qOptMap(*h.Prot()), qOptMap(*h.Unprot()), qOptB(*h.Payload()), qRecipsSeen(h.Recips()), sg)
 }
 
 func streamObjHist(c *ctx) {
@@ -119,7 +165,7 @@ func streamObjHist(c *ctx) {
 		pool = append(pool, sent{cd, genFkey(c, 0), nil, "None", ""})
 	}
 	for i := 0; i < n; i++ {
-		kind := pick(c.r, []string{"KSign1", "KMac0", "KEnc0", "KMac", "KEnc"})
+		kind := pick(c.r, []string{"KSign1", "KMac0", "KEnc0", "KMac", "KEnc", "KSign"})
 		multi := kind == "KMac" || kind == "KEnc"
 		algs := []int{1, 5, 0}
 		keys := []fkey{genFkey(c, pick(c.r, algs)), genFkey(c, pick(c.r, algs))}
@@ -139,6 +185,7 @@ func streamObjHist(c *ctx) {
 		var own []sent
 		var last *sent // the key and external data under which the object's wire struct was made, when known
 		var pending []string
+		var lastKeys []fkey
 		for s := 0; s < steps; s++ {
 			var opq, out, line string
 			forceAdd := multi && (s == 0 && c.r.intn(4) > 0 || c.r.intn(10) == 0)
@@ -186,35 +233,47 @@ func streamObjHist(c *ctx) {
 				p, _ := catch(func() { err = h.Decode(data) })
 				if !p && err == nil {
 					last = from
+					lastKeys = nil
 				}
 				opq, line = "ODecode "+qHex(data), fmt.Sprintf("decode %x", data)
 				out = outOf(p, err)
 			case r < 8: // produce
 				f := pick(c.r, keys)
+				fs, fq := pickKeys(c, kind, keys, f)
 				ext, extq := genExt(c)
 				before, _ := (*h.Unprot()).GetBytes(iana.HeaderParameterIV)
 				var err error
-				p, _ := catch(func() { err = h.Produce(f, ext) })
+				p, _ := catch(func() { err = h.Produce(fs, ext) })
 				draw := []byte{}
 				if (kind == "KEnc0" || kind == "KEnc") && len(before) == 0 && *h.Unprot() != nil {
 					if after, _ := (*h.Unprot()).GetBytes(iana.HeaderParameterIV); len(after) > 0 {
 						draw = after
 					}
 				}
-				opq, line = fmt.Sprintf("OProduce (fp %s) %s %s", f.coq(), extq, qHex(draw)), fmt.Sprintf("produce key=%s ext=%x", describe(f.k), ext)
+				opq, line = fmt.Sprintf("OProduce %s %s %s", fq, extq, qHex(draw)), fmt.Sprintf("produce key=%s (%d keys) ext=%x", describe(f.k), len(fs), ext)
 				out = outOf(p, err)
 				if !p && err == nil {
 					last = &sent{nil, f, ext, extq, kind}
+					lastKeys = fs
 				}
 			case r < 12: // consume
 				f := pick(c.r, keys)
 				ext, extq := genExt(c)
+				fs, fq := pickKeys(c, kind, keys, f)
 				if last != nil && c.r.intn(10) < 7 { // mostly: the key and external data the message was made with
 					f, ext, extq = last.f, last.ext, last.extq
+					fs, fq = []fkey{f}, "(fp "+f.coq()+")"
+					if kind == "KSign" {
+						fs = lastKeys
+						if fs == nil {
+							fs = keys
+						}
+						fq = qFps(fs)
+					}
 				}
 				var err error
-				p, _ := catch(func() { err = h.Consume(f, ext) })
-				opq, line = fmt.Sprintf("OConsume (fp %s) %s", f.coq(), extq), fmt.Sprintf("consume key=%s ext=%x", describe(f.k), ext)
+				p, _ := catch(func() { err = h.Consume(fs, ext) })
+				opq, line = fmt.Sprintf("OConsume %s %s", fq, extq), fmt.Sprintf("consume key=%s (%d keys) ext=%x", describe(f.k), len(fs), ext)
 				out = outOf(p, err)
 			case r < 14: // marshal
 				var b []byte
@@ -340,4 +399,31 @@ func genEdit(c *ctx, keys []fkey) (int, any, string) {
 	}
 	b := c.r.bytes(2)
 	return 99, b, qGval(b)
+}
+
+// pickKeys: the keys handed to a produce / consume call and their Coq term. The single-key kinds take one key; COSE_Sign
+// takes a list (none, one, both, in either order; the two keys of a history often share kid or secret).
+func pickKeys(c *ctx, kind string, keys []fkey, f fkey) ([]fkey, string) {
+	if kind != "KSign" {
+		return []fkey{f}, "(fp " + f.coq() + ")"
+	}
+	var fs []fkey
+	switch c.r.intn(8) {
+	case 0:
+	case 1, 2:
+		fs = []fkey{f}
+	case 3:
+		fs = []fkey{keys[1], keys[0]}
+	default:
+		fs = []fkey{keys[0], keys[1]}
+	}
+	return fs, qFps(fs)
+}
+
+func qFps(fs []fkey) string {
+	var l []string
+	for _, f := range fs {
+		l = append(l, f.coq())
+	}
+	return "(fps " + qList(l) + ")"
 }
